@@ -1,8 +1,10 @@
 import FormulaicVerif.Model.Dot
+import FormulaicVerif.Spec.Variables
 import FormulaicVerif.Proofs.C19LM
 /-! Helper lemmas for C17: the wildcard expansion. Not obligations. -/
 namespace FormulaicVerif.Proofs.C17
 open FormulaicVerif.Model FormulaicVerif.Spec.Containers FormulaicVerif.Proofs.C19
+open FormulaicVerif.Model.Variables FormulaicVerif.Model.LMap FormulaicVerif.Spec.Variables
 
 theorem dedupAux_id_of_nodup {α : Type} (key : α → List String) :
     ∀ (xs : List α) (seen : List (List String)), (xs.map key).Nodup → (∀ x ∈ xs, key x ∉ seen) →
@@ -57,5 +59,93 @@ theorem expand_eq (cols used : List String) :
     rw [this]
     exact nodup_map_single _ hnd
   · intro x _ h; cases h
+
+/-! ### every occurrence of `.` reads the same evaluation context -/
+
+/-- an operator reads the evaluation context only when it is the `.` operator -/
+theorem applyPlain_dot_congr (dot dot' : DotCtx)
+    (h : applyPlain Dot.dotOp dot [] = applyPlain Dot.dotOp dot' []) (o : OpSpec) (args : List (List Term)) :
+    applyPlain o dot args = applyPlain o dot' args := by
+  simp only [applyPlain, Dot.dotOp] at h
+  unfold applyPlain
+  split <;> first | rfl | exact h
+
+theorem applyPlain_fun_congr (dot dot' : DotCtx)
+    (h : applyPlain Dot.dotOp dot [] = applyPlain Dot.dotOp dot' []) (o : OpSpec) :
+    applyPlain o dot = applyPlain o dot' := funext (applyPlain_dot_congr dot dot' h o)
+
+mutual
+theorem evalAst_dot_congr (dot dot' : DotCtx)
+    (h : applyPlain Dot.dotOp dot [] = applyPlain Dot.dotOp dot' []) :
+    ∀ (a : Ast), evalAst dot a = evalAst dot' a
+  | .leaf t => by simp only [evalAst]
+  | .node o args => by
+    simp only [evalAst, evalArgs_dot_congr dot dot' h args, applyPlain_fun_congr dot dot' h o]
+theorem evalArgs_dot_congr (dot dot' : DotCtx)
+    (h : applyPlain Dot.dotOp dot [] = applyPlain Dot.dotOp dot' []) :
+    ∀ (as : List Ast), evalAst.evalArgs dot as = evalAst.evalArgs dot' as
+  | [] => by simp only [evalAst.evalArgs]
+  | a :: as => by
+    simp only [evalAst.evalArgs, evalAst_dot_congr dot dot' h a, evalArgs_dot_congr dot dot' h as]
+end
+
+/-- `Token.required_variables` over the left-hand-side tokens, computed by `Model.Variables` -/
+theorem lhsVariables_pyEnv (norm : List Char → Except PyErr (List Char))
+    (codes : List (String × Option PyCode)) (av : Option (List String)) (ts : List Tok) :
+    lhsVariables (Dot.pyEnv norm codes av) ts = lhsUsed (ts.map (Dot.ptokOf codes)) := by
+  simp only [lhsVariables, lhsUsed, List.flatMap_map]
+  congr 1
+  funext t
+  simp only [Dot.pyEnv, Dot.ptokOf, tokenRequired]
+  cases t.kind with
+  | none => rfl
+  | some k => cases k <;> rfl
+
+/-! ### named layers of the materializer's context -/
+variable {ν : Type}
+
+theorem directNamed_single (c : Layer ν) (n : String) :
+    (directNamed [c] ++ namedLayers c).lookup n = (namedLayers c).lookup n := by
+  cases c with
+  | dict d => simp [directNamed]
+  | lm name muts layers =>
+    simp only [directNamed, namedLayers]
+    cases named name with
+    | none => simp
+    | some m =>
+      simp only [List.append_nil, List.cons_append, List.nil_append, List.lookup_cons]
+      cases n == m <;> simp
+
+theorem namedLayers_lm (L : Layers ν) (n : String) :
+    (namedLayers L.lm.toLayer).lookup n =
+      if n = "data" then some (.lm (some "data") [] [.dict L.data])
+      else if n = "context" then some (.lm (some "context") [] [L.context])
+      else if n = "transforms" then some (.lm (some "transforms") [] [.dict L.transforms])
+      else (namedLayers L.context).lookup n := by
+  have hd : named (some "data") = some "data" := by decide
+  have hc : named (some "context") = some "context" := by decide
+  have ht : named (some "transforms") = some "transforms" := by decide
+  have hn : named (none : Option String) = none := rfl
+  simp only [Layers.lm, LM.toLayer, namedLayers, namedLayersL, directNamed, hd, hc, ht, hn,
+    List.nil_append, List.append_nil, List.cons_append, List.lookup_cons]
+  by_cases h1 : n = "data"
+  · subst h1; simp
+  · by_cases h2 : n = "context"
+    · subst h2; simp
+    · by_cases h3 : n = "transforms"
+      · subst h3; simp
+      · have e1 : (n == "data") = false := by simpa using h1
+        have e2 : (n == "context") = false := by simpa using h2
+        have e3 : (n == "transforms") = false := by simpa using h3
+        simp only [h1, h2, h3, if_false, e1, e2, e3]
+        rw [List.lookup_append, directNamed_single]
+        simp [List.lookup, e3]
+
+/-- the variables available to `.`: the keys of the data layer, first occurrences, in data order -/
+theorem available_eq (L : Layers ν) : L.available = some (firstOcc (dataKeys L)) := by
+  simp only [Layers.available, namedLayers_lm, if_true, Option.map_some, Layer.keys, keysL,
+    List.map_nil, List.nil_append, List.append_nil, dataKeys]
+  congr 1
+  exact dedup_eq _
 
 end FormulaicVerif.Proofs.C17
